@@ -26,8 +26,8 @@ import registry  # noqa: E402
 
 BUILD = "/verif/.build"
 EVID = os.path.join(HERE, "evidence")
-TOTAL_MEM_GB = 54
-MAX_JOBS = 14
+TOTAL_MEM_GB = 48
+MAX_JOBS = 10
 
 
 def log(*a):
@@ -141,10 +141,13 @@ def run_k_obligations(prop, obls, tier, jobs):
             return base
         classes = registry.UNWIND_CLASSES[o.get("classes", "default")]
         us, nloops, used = K.unwindset_for(goto, classes)
+        # `mem_gb` is the *expected* footprint used for scheduling; the hard address-space limit is
+        # more generous so that a slightly larger formula (e.g. on a modified tree) is still decided
         mem = o.get("mem_gb", 6)
+        limit = o.get("limit_gb", max(mem * 2, mem + 6))
         sched.acquire(mem)
         try:
-            r = K.run_cbmc(goto, o.get("unwind", 4), us, o.get("timeout_s", 900), mem, lg + ".cbmc.log",
+            r = K.run_cbmc(goto, o.get("unwind", 4), us, o.get("timeout_s", 900), limit, lg + ".cbmc.log",
                            memsafe=o.get("memsafe", True), extra=o.get("cbmc_extra"))
         finally:
             sched.release(mem)
